@@ -9,6 +9,10 @@
     names of bytes (EVERY name), integral reals within i64, object numbers <= 9 999 999
     and no [i g /R] inside an array (the three open classes, each refuted below by a witness),
     besides the type invariants of the Rust values (i64 integers, u8 bytes, u16 generations).
+    STRING LEVEL (reader after fix_name_utf8: decoded name bytes that are valid UTF-8 are the String):
+      c09_ser_parse_roundtrip_strings :
+        forall v, wf v = true -> utf8_names v = true -> option_map strview (parse (ser esc_iso v)) = Some (norm v).
+    for EVERY tree whose names are Rust Strings (valid UTF-8), not only ASCII ones.
     The [_partial] theorems are the per-token-class statements the induction is built from;
     c09_lex_nested / c09_parse_nested are its two continuation-style layers.
 
@@ -123,17 +127,20 @@ Check c09_name_raw_refuted_pinned : exists n, regular_name n = false /\ roundtri
   /\ parse (ser esc_iso (ODict [(n, OInt 1)])) = Some (PDict [(n, PInt 1)]).
 Print Assumptions c09_name_raw_refuted_pinned.
 
-(** refuted on the current tree (known findings), each by a witness *)
-(** C09-name-nonascii (what is left of the name finding): bytes round-trip, but the reader's String has
-    one char per byte, so the source String "é" (UTF-8 C3 A9) comes back as the String "Ã©" *)
-Theorem c09_name_nonascii_refuted : exists n, wf (OName n) = true /\ ascii_name n = false
+(** RECORD of the reader before fix_name_utf8 (former finding C09-name-nonascii, fixed): with the
+    one-char-per-byte view [strview_pinned] the source String "é" (UTF-8 C3 A9) came back as "Ã©"; with
+    the repaired reader [strview] it comes back as itself (general: c09_ser_parse_roundtrip_strings) *)
+Theorem c09_name_nonascii_refuted_pinned : exists n, wf (OName n) = true /\ ascii_name n = false
                                    /\ parse (ser esc_iso (OName n)) = Some (PName n)
-                                   /\ strview (PName n) = PName [195; 131; 194; 169] /\ n = [195; 169].
-Proof. exact name_nonascii_refuted. Qed.
-Check c09_name_nonascii_refuted : exists n, wf (OName n) = true /\ ascii_name n = false
-  /\ parse (ser esc_iso (OName n)) = Some (PName n) /\ strview (PName n) = PName [195; 131; 194; 169] /\ n = [195; 169].
-Print Assumptions c09_name_nonascii_refuted.
+                                   /\ strview_pinned (PName n) = PName [195; 131; 194; 169]
+                                   /\ strview (PName n) = PName n /\ n = [195; 169].
+Proof. exact name_nonascii_refuted_pinned. Qed.
+Check c09_name_nonascii_refuted_pinned : exists n, wf (OName n) = true /\ ascii_name n = false
+  /\ parse (ser esc_iso (OName n)) = Some (PName n) /\ strview_pinned (PName n) = PName [195; 131; 194; 169]
+  /\ strview (PName n) = PName n /\ n = [195; 169].
+Print Assumptions c09_name_nonascii_refuted_pinned.
 
+(** refuted on the current tree (known findings), each by a witness *)
 Theorem c09_int_int_nameR_refuted : exists v, wf v = false /\ parse (ser esc_iso v) = Some (PArr [PRef 1 0]) /\ roundtrips v = false.
 Proof. exact int_int_nameR_refuted. Qed.
 Check c09_int_int_nameR_refuted : exists v, wf v = false /\ parse (ser esc_iso v) = Some (PArr [PRef 1 0]) /\ roundtrips v = false.
@@ -149,15 +156,42 @@ Proof. exact objnum_refuted. Qed.
 Check c09_objnum_refuted : exists v, wf v = false /\ parse (ser esc_iso v) = Some (PInt 10000000).
 Print Assumptions c09_objnum_refuted.
 
-Theorem c09_incr_nonascii_refuted : exists n, bytes_ok n = true /\ parse (ser_incr (OName n)) = Some (PName [195; 169]) /\ n = [233].
-Proof. exact incr_nonascii_refuted. Qed.
-Check c09_incr_nonascii_refuted : exists n, bytes_ok n = true /\ parse (ser_incr (OName n)) = Some (PName [195; 169]) /\ n = [233].
-Print Assumptions c09_incr_nonascii_refuted.
+(** RECORD (former finding C09-incr-nonascii-name, repaired by the reader fix): Latin-1 byte E9 -> String
+    "é" -> incremental writer /#C3#A9 -> old reader: two chars; repaired reader: "é" *)
+Theorem c09_incr_nonascii_refuted_pinned : exists n, bytes_ok n = true /\ parse (ser_incr_name_pinned n) = Some (PName [195; 169]) /\ n = [233]
+  /\ strview_pinned (PName [195; 169]) = PName [195; 131; 194; 169]
+  /\ option_map strview (parse (ser_incr (OName [195; 169]))) = Some (PName [195; 169]).
+Proof. exact incr_nonascii_refuted_pinned. Qed.
+Check c09_incr_nonascii_refuted_pinned : exists n, bytes_ok n = true /\ parse (ser_incr_name_pinned n) = Some (PName [195; 169]) /\ n = [233]
+  /\ strview_pinned (PName [195; 169]) = PName [195; 131; 194; 169]
+  /\ option_map strview (parse (ser_incr (OName [195; 169]))) = Some (PName [195; 169]).
+Print Assumptions c09_incr_nonascii_refuted_pinned.
+(** the incremental writer's name escaper at the String level: every Rust String reads back as itself *)
+Theorem c09_incr_name_roundtrip_strings : forall n, Tok.utf8_valid n = true ->
+  option_map strview (parse (ser_incr (OName n))) = Some (PName n).
+Proof. exact incr_name_roundtrip_strings. Qed.
+Check c09_incr_name_roundtrip_strings : forall n, Tok.utf8_valid n = true ->
+  option_map strview (parse (ser_incr (OName n))) = Some (PName n).
+Print Assumptions c09_incr_name_roundtrip_strings.
 
 (** non-vacuity *)
 Example c09_nonvacuous : wf sample_names = true /\ wf_pinned sample_names = false /\ ascii_names sample_names = true
   /\ parse (ser esc_iso sample_names) = Some (norm sample_names) /\ strview (norm sample_names) = norm sample_names.
 Proof. exact sample_wf_roundtrips. Qed.
+(** ... and with 2-, 3- and 4-byte UTF-8 names (hypotheses of c09_ser_parse_roundtrip_strings on a non-ASCII tree;
+    the pre-fix view does not read it back) *)
+Example c09_nonvacuous_utf8 : wf sample_utf8 = true /\ utf8_names sample_utf8 = true /\ ascii_names sample_utf8 = false
+  /\ option_map strview (parse (ser esc_iso sample_utf8)) = Some (norm sample_utf8)
+  /\ option_map strview_pinned (parse (ser esc_iso sample_utf8)) <> Some (norm sample_utf8).
+Proof. exact sample_utf8_roundtrips. Qed.
+(** names whose bytes are NOT UTF-8 keep the Latin-1 view (lone E9, truncated C3, surrogate ED A0 80, overlong C0 80,
+    F4 90 80 80, stray 80); the boundary cases ED 9F BF and F4 8F BF BF are valid *)
+Example c09_name_string_invalid_examples :
+  name_string [99; 97; 102; 233] = [99; 97; 102; 195; 169] /\ name_string [195] = [195; 131]
+  /\ name_string [237; 160; 128] = [195; 173; 194; 160; 194; 128] /\ name_string [192; 128] = [195; 128; 194; 128]
+  /\ name_string [244; 144; 128; 128] = [195; 180; 194; 144; 194; 128; 194; 128] /\ name_string [128] = [194; 128]
+  /\ name_string [237; 159; 191] = [237; 159; 191] /\ name_string [244; 143; 191; 191] = [244; 143; 191; 191].
+Proof. exact name_string_invalid_examples. Qed.
 
 (** * The nested theorem (theories/C09/Full.v) *)
 
@@ -204,14 +238,31 @@ Theorem c09_ser_parse_roundtrip : forall v, wf v = true -> parse (ser esc_iso v)
 Proof. exact ser_parse_roundtrip. Qed.
 Check c09_ser_parse_roundtrip : forall v, wf v = true -> parse (ser esc_iso v) = Some (norm v).
 Print Assumptions c09_ser_parse_roundtrip.
-(** the same at the level of Rust Strings: when every name is ASCII (any ASCII: white space, delimiters,
-    '#', controls) the names the reader builds ARE the source names *)
-Theorem c09_ser_parse_roundtrip_strings : forall v, wf v = true -> ascii_names v = true ->
+(** the same at the level of Rust Strings: when every name is a Rust String (valid UTF-8 — every Rust String
+    is; any chars: white space, delimiters, '#', controls, non-ASCII) the names the reader builds ARE the source names *)
+Theorem c09_ser_parse_roundtrip_strings : forall v, wf v = true -> utf8_names v = true ->
   option_map strview (parse (ser esc_iso v)) = Some (norm v).
 Proof. exact ser_parse_roundtrip_strings. Qed.
-Check c09_ser_parse_roundtrip_strings : forall v, wf v = true -> ascii_names v = true ->
+Check c09_ser_parse_roundtrip_strings : forall v, wf v = true -> utf8_names v = true ->
   option_map strview (parse (ser esc_iso v)) = Some (norm v).
 Print Assumptions c09_ser_parse_roundtrip_strings.
+(** the former ASCII-only statement is an instance *)
+Theorem c09_ser_parse_roundtrip_strings_ascii : forall v, wf v = true -> ascii_names v = true ->
+  option_map strview (parse (ser esc_iso v)) = Some (norm v).
+Proof. exact ser_parse_roundtrip_strings_ascii. Qed.
+Check c09_ser_parse_roundtrip_strings_ascii : forall v, wf v = true -> ascii_names v = true ->
+  option_map strview (parse (ser esc_iso v)) = Some (norm v).
+Print Assumptions c09_ser_parse_roundtrip_strings_ascii.
+(** the parser's only look at a name String (the comparison with "R") agrees with the model's test on the decoded bytes *)
+Theorem c09_name_string_R : forall n, name_string n = name_R <-> n = name_R.
+Proof. exact name_string_R. Qed.
+Check c09_name_string_R : forall n, name_string n = name_R <-> n = name_R.
+Print Assumptions c09_name_string_R.
+(** valid UTF-8 consists of bytes (so [wf]'s name condition follows from [utf8_names]) *)
+Theorem c09_utf8_valid_bytes_ok : forall n, Tok.utf8_valid n = true -> bytes_ok n = true.
+Proof. exact utf8_valid_bytes_ok. Qed.
+Check c09_utf8_valid_bytes_ok : forall n, Tok.utf8_valid n = true -> bytes_ok n = true.
+Print Assumptions c09_utf8_valid_bytes_ok.
 (** record about the writer before the repair (regular names only) *)
 Theorem c09_ser_parse_roundtrip_pinned : forall v, wf_pinned v = true -> parse (ser raw_name v) = Some (norm v).
 Proof. exact ser_parse_roundtrip_pinned. Qed.
@@ -289,13 +340,19 @@ Example c09_iso_reads_known_classes : wf isample2 = false /\ iso_wf isample2 = t
 Proof. exact isample2_ok. Qed.
 
 (** link to the verdict.  FULL STATEMENT (not re-proved after the String-level comparison was added to
-    [ser_code]; it needs soundness of opobj_eqb and that canon commutes with strview on ASCII names):
-      forall v bs p, wf v = true -> ascii_names v = true -> ser_code (v, bs, p) <> 2.
-    Proved part: implementation bytes equal to the model's parse, in the model, to [norm v]; together with
-    c09_ser_parse_roundtrip_strings this is what the full statement rests on. *)
+    [ser_code]; it needs soundness of opobj_eqb):
+      forall v bs p, wf v = true -> utf8_names v = true -> ser_code (v, bs, p) <> 2.
+    Proved part: implementation bytes equal to the model's parse, in the model, to [norm v] — as bytes and,
+    for trees of Rust Strings, at the String view [parse_strings] the checker compares. *)
 Theorem c09_ser_code_model_parse_partial : forall v bs, wf v = true -> bytes_eqb (ser esc_iso v) bs = true ->
   option_map canon (parse bs) = Some (canon (norm v)).
 Proof. exact ser_code_model_parse_partial. Qed.
 Check c09_ser_code_model_parse_partial : forall v bs, wf v = true -> bytes_eqb (ser esc_iso v) bs = true ->
   option_map canon (parse bs) = Some (canon (norm v)).
 Print Assumptions c09_ser_code_model_parse_partial.
+Theorem c09_ser_code_model_strings_partial : forall v bs, wf v = true -> utf8_names v = true ->
+  bytes_eqb (ser esc_iso v) bs = true -> parse_strings bs = Some (canon (norm v)).
+Proof. exact ser_code_model_strings_partial. Qed.
+Check c09_ser_code_model_strings_partial : forall v bs, wf v = true -> utf8_names v = true ->
+  bytes_eqb (ser esc_iso v) bs = true -> parse_strings bs = Some (canon (norm v)).
+Print Assumptions c09_ser_code_model_strings_partial.
